@@ -72,6 +72,10 @@ func (c *Ctx) mapInputs() ([][]byte, []*gen.Printer) {
 			f.Imports = []string{`"fmt"`}
 			f.Chrome = append(f.Chrome, "", "// tail\nvar _ = fmt.Sprint\n")
 		}
+		if o.TrailingSpace {
+			// blanks (or a comment) between an import spec and its line break
+			f.ImportTrail = []string{"  ", "\t", " \t ", " // x"}[i%4]
+		}
 		p, src := f.Print()
 		b := []byte(src)
 		if i%7 == 3 {
